@@ -591,6 +591,8 @@ def r12_6(rep: Report) -> None:
     tree = rep.repo.tree(rel)
     cls = need(find_class(tree, 'ServeMpsMedia'), 'ServeMpsMedia')
     fn = need(find_func(cls, 'calculate_media_segment_index'), 'ServeMpsMedia.calculate_media_segment_index')
+    from ..normalise import propagate_attr_aliases, set_parents
+    fn = set_parents(propagate_attr_aliases(fn))         # ref_timescale = timing_ref.timescale reads as the attribute
     construct = f'{rel}::ServeMpsMedia.calculate_media_segment_index'
     params = [a.arg for a in fn.args.args]
     time_param = next((p for p in params if 'time' in p and p not in ('timing',)), None)
